@@ -50,12 +50,13 @@ type scen struct {
 	HeaderLen   int  // > 0: Dialer.Header of that many bytes (several header lines), so that connection writes happen inside the user's header writer
 	NoDeadlines bool // the connection refuses every SetDeadline call (no deadline support)
 	WrapConn    bool // Dialer.WrapConn is set (an identity wrapper; wsutil.DebugDialer always sets one)
+	CloseFails  bool // the connection's Close() returns an error (the connection is closed all the same)
 	Layer       bool // Dialer.WrapConn returns a protocol layer that OWNS its deadlines (SetDeadline is not forwarded to the transport)
 }
 
 func (s scen) String() string {
 	return fmt.Sprintf("ctx=%s(deadline=%v) timeout=%v event=%s place=%s cancelAt=%v peer=%s chunks=%d delay=%v wbuf=%d tls=%v dialDelay=%v lastOp=%d realtls=%v tls12=%v headerLen=%d",
-		s.CtxKind, s.CtxDeadline, s.Timeout, s.Event, s.Place, s.CancelAt, s.Peer, s.Chunks, s.ChunkDelay, s.WBuf, s.TLS, s.DialDelay, s.LastOp, s.RealTLS, s.TLS12, s.HeaderLen) + fmt.Sprintf(" nodeadlines=%v wrapconn=%v layer=%v", s.NoDeadlines, s.WrapConn, s.Layer)
+		s.CtxKind, s.CtxDeadline, s.Timeout, s.Event, s.Place, s.CancelAt, s.Peer, s.Chunks, s.ChunkDelay, s.WBuf, s.TLS, s.DialDelay, s.LastOp, s.RealTLS, s.TLS12, s.HeaderLen) + fmt.Sprintf(" nodeadlines=%v wrapconn=%v layer=%v closefails=%v", s.NoDeadlines, s.WrapConn, s.Layer, s.CloseFails)
 }
 
 type ctxKey struct{}
@@ -258,6 +259,7 @@ func runScenario(t *testing.T, s scen) (o outcome) {
 		defer cancel()
 		c := newVconn()
 		c.noDeadlines = s.NoDeadlines
+		c.closeFails = s.CloseFails
 		if s.RealTLS {
 			tlsPeer(c, s)
 		} else {
@@ -677,6 +679,18 @@ func buildScenarios(t *testing.T) []scen {
 						s = sil
 						s.CtxKind, s.CtxDeadline, s.Timeout = "withdeadline", time.Second, 3*time.Second
 						scenList = append(scenList, s)
+						if wbuf == 4096 && j >= 0 {
+							// the same endings on a connection whose Close() reports an error: the context's error is what
+							// Dial returns
+							for _, ck := range []string{"withcancel", "withdeadline"} {
+								s := sil
+								s.CtxKind, s.CtxDeadline, s.Event, s.Place, s.CloseFails = ck, far, "cancel", "blocked", true
+								scenList = append(scenList, s)
+							}
+							s := sil
+							s.CtxKind, s.CtxDeadline, s.Timeout, s.CloseFails = "withcancel", 10*time.Second, 3*time.Second, true
+							scenList = append(scenList, s)
+						}
 						if wbuf == 4096 && !tls && j >= 0 {
 							// the same endings with a WrapConn LAYER that owns its deadlines between the library and the
 							// transport: the context's end must reach the connection Dial is blocked on
